@@ -820,6 +820,12 @@ class Engine:
             return nxt
         if isinstance(t, SwitchInt):
             v = s.operand(st, fr, t.op)
+            # switch targets are printed as unsigned bit patterns: for a signed operand (e.g. the i8 discriminant of Ordering: Less = 255) read them as two's complement
+            pl_ = getattr(t.op, 'place', None); ty_ = body.local_ty.get(getattr(pl_, 'n', None), '') if pl_ is not None else ''
+            mty = re.match(r'^i(8|16|32|64|128)$', ty_.strip())
+            if mty:
+                w_ = int(mty.group(1))
+                t = SwitchInt(t.op, [((val - (1 << w_)) if val >= (1 << (w_ - 1)) else val, tgt) for val, tgt in t.targets], t.otherwise)
             if isz(v):
                 vs = z3.simplify(v)      # only to detect constants: the original term is kept so that equal sub-terms stay identical
                 if z3.is_true(vs): v = True
